@@ -46,6 +46,12 @@ HOSTILE_VALUES = [
     "1 div 0", "-1 div 0", "0 div 0", '&#x10FFFF;', '&#xFFFE;', '\U0001F600' * 300, '\u0085 ', 'I', 'i', 'A', 'a', '1', '01', '001.a.I', '&#x661;', '&#x3b1;', 'а', '#', ',', 'yes', 'no', 'maybe', 'xml', 'html', 'text', 'zz:method',
     'UTF-8', 'UTF-16', 'ISO-8859-1', 'US-ASCII', 'EBCDIC-CP-US', 'no-such-encoding', 'UCS-4', '1.0', '1.1', '2.0', '0', '-1', '1e3',
 ]
+# values for top-level parameters set by the caller: expressions evaluated before any template runs (variables, context functions, node-set
+# functions, documents) next to the hostile strings above
+PARAM_VALUES = ['$undefined', '$tp', '$np', '$g0', '$g1', '$undefined + 1', 'concat($np, $tp)', '$p:x', 'position()', 'last()', 'current()', '.', '/', '/*', '//@*', '..',
+                "key('ka', 'x')", "key('nokey', 1)", "id('i1')", 'generate-id()', "document('')", "document('ext.xml')", "document('ext.xml')//@*", 'name()', 'string(.)',
+                'count(//node())', 'sum(//@n)', "system-property('xsl:vendor')", "unparsed-entity-uri('x')", "e:node-set('x')", 'e:node-set(/)', "format-number(1, '0')",
+                "'x'", '1', '-0', '1 div 0', 'true()', "''", '/..', '(//*)[1]/namespace::*']
 XSLT_NAMES = ['template', 'apply-templates', 'apply-imports', 'call-template', 'for-each', 'value-of', 'copy', 'copy-of', 'element', 'attribute', 'attribute-set', 'text', 'comment',
               'processing-instruction', 'if', 'choose', 'when', 'otherwise', 'variable', 'param', 'with-param', 'number', 'key', 'import', 'include', 'strip-space', 'preserve-space',
               'output', 'namespace-alias', 'decimal-format', 'sort', 'message', 'fallback', 'stylesheet', 'transform', 'nosuch']
@@ -104,8 +110,11 @@ def mutations(draw):
                                   'del-span', 'dup-span', 'raw', 'raw', 'encoding', 'truncate', 'bigtext', 'bigtext']))
         m = {'k': k, 'file': draw(st.sampled_from(['main.xsl', 'main.xsl', 'main.xsl', 'doc.xml', 'other'])), 'at': draw(st.floats(0, 1, exclude_max=True)),
              'len': draw(st.integers(1, 60))}
-        if k == 'attr-value' or k == 'param':
+        if k == 'attr-value':
             m['v'] = draw(st.sampled_from(HOSTILE_VALUES))
+        if k == 'param':
+            m['v'] = draw(st.one_of(st.sampled_from(PARAM_VALUES), st.sampled_from(PARAM_VALUES), st.sampled_from(HOSTILE_VALUES)))
+            m['name'] = draw(st.sampled_from(['tp', 'np', 'tp', 'np', 'p', 'undeclared', 'p:q']))
         if k == 'swap-name':
             m['v'] = draw(st.sampled_from(XSLT_NAMES))
         if k == 'nest':
@@ -267,7 +276,10 @@ def apply_mutations(case):
             if i > 0 and data[i - 2:i] != b'/>':
                 data = data[:i] + snippet + data[i:]
         elif k == 'param':
-            params['tp' if 'tp' in params or not params else sorted(params)[0]] = m['v']
+            if 'name' in m:
+                params[m['name']] = m['v']
+            else:   # cases saved before the name was drawn
+                params['tp' if 'tp' in params or not params else sorted(params)[0]] = m['v']
         files[fname] = data
     return files, params
 
